@@ -53,11 +53,129 @@ def token_map(M, prod, node):
     return tm
 
 
+def sourcepath_rule(report, index, rid):
+    """walker.walk evaluated on small trees whose nodes carry source paths:
+    the stack handed to the token handler ends, at every token, with the
+    path of the innermost enclosing node that has one"""
+    from engine.walkersem import WalkerSemantics
+    W = WalkerSemantics(index)
+    r = report.rule(rid, 'every token is printed under the source path of '
+                    'the innermost enclosing node that carries one '
+                    '(walker.walk evaluated on nested source paths)',
+                    floor=8)
+    T = lambda v: W.token('Text', value=v)      # noqa: E731
+    defs = {
+        'NodeR': (T('r1'), W.token('Attr', 'child'), T('r2'),
+                  W.token('JoinAttr', 'items', value=(T(','),)), T('r3')),
+        'NodeC': (T('c1'), W.token('Attr', 'child'), T('c2')),
+        'NodeG': (T('g'),),
+    }
+
+    def tree(spec):
+        """spec: (class, sourcepath, child spec or None, [item specs])"""
+        cls, sp, child, items = spec
+        o = Obj(cls, sourcepath=sp)
+        o.child = tree(child) if child else None
+        o.items = [tree(i) for i in items]
+        return o
+
+    def expect(spec, stack, out):
+        cls, sp, child, items = spec
+        st = stack + [sp] if sp else stack
+        cur = st[-1]
+        if cls == 'NodeG':
+            out.append(('g', cur))
+            return
+        tag = 'r' if cls == 'NodeR' else 'c'
+        out.append((tag + '1', cur))
+        if child:
+            expect(child, st, out)
+        out.append((tag + '2', cur))
+        if cls == 'NodeR':
+            for i, it in enumerate(items):
+                if i:
+                    out.append((',', cur))
+                expect(it, st, out)
+            out.append(('r3', cur))
+    G = lambda sp: ('NodeG', sp, None, [])               # noqa: E731
+    C = lambda sp, child=None: ('NodeC', sp, child, [])  # noqa: E731
+    cases = [
+        ('one file', ('NodeR', 'a.js', C(None), [])),
+        ('no path at all', ('NodeR', None, C(None, G(None)), [])),
+        ('inlined second file', ('NodeR', 'a.js', C('b.js'), [])),
+        ('second file inside a tree without path',
+         ('NodeR', None, C('b.js', G(None)), [G(None)])),
+        ('first file again inside the second',
+         ('NodeR', 'a.js', C('b.js', G('a.js')), [])),
+        ('same file nested in itself',
+         ('NodeR', 'a.js', C('a.js', G('a.js')), [G('b.js'), G(None)])),
+        ('programs of two files side by side',
+         ('NodeR', None, None, [C('a.js', G(None)), C('b.js', G(None)),
+                                C('a.js')])),
+        ('three levels, three files',
+         ('NodeR', 'a.js', C('b.js', G('c.js')), [G('b.js'), C('c.js')])),
+    ]
+    # programs concatenated into one (what io.write is given for several
+    # files): each keeps its own path, through the Iter deferrable
+    W.extra_isa = {'NodeP': ('Program', 'Node')}
+    defs['NodeP'] = (T('p1'), W.token('JoinAttr', W.deferrable('Iter'),
+                                      value=(T(';'),)), T('p2'))
+
+    def ptree(sp, kids):
+        o = Obj('NodeP', sourcepath=sp)
+        o._children = [ptree(*k) if isinstance(k, tuple) else
+                       Obj('NodeG', sourcepath=k) for k in kids]
+        return o
+
+    def pexpect(sp, kids, stack, out):
+        st = stack + [sp] if sp else stack
+        out.append(('p1', st[-1]))
+        for i, k in enumerate(kids):
+            if i:
+                out.append((';', st[-1]))
+            if isinstance(k, tuple):
+                pexpect(k[0], k[1], st, out)
+            else:
+                out.append(('g', (st + [k] if k else st)[-1]))
+        out.append(('p2', st[-1]))
+    for label, (sp, kids) in (
+            ('a program inside a program',
+             ('a.js', [None, ('b.js', [None, None]), None])),
+            ('two programs in a bundle',
+             (None, [('a.js', [None]), ('b.js', [None, 'c.js'])]))):
+        log = []
+        got = W.run_walk(defs, {}, ptree(sp, kids), stack_log=log)
+        want = []
+        pexpect(sp, kids, [NotImplemented], want)
+        seen = [(v, st[-1] if st else '<empty stack>') for v, st in log]
+        r.check(isinstance(got, list) and seen == want,
+                'source path: ' + label, 'walk over %s' % label,
+                'tokens are printed under the paths %r, expected %r' % (
+                    seen[:8], want[:8]),
+                where='unparsers/walker.py:walk._walk / ruletypes.py:Iter')
+    for label, spec in cases:
+        log = []
+        got = W.run_walk(defs, {}, tree(spec), stack_log=log)
+        want = []
+        expect(spec, [NotImplemented], want)
+        seen = [(v, st[-1] if st else '<empty stack>') for v, st in log]
+        r.check(isinstance(got, list) and seen == want,
+                'source path: ' + label, 'walk over %s' % label,
+                'tokens are printed under the paths %r, expected %r' % (
+                    [x for x in seen if x not in want][:4] or seen[:6],
+                    [x for x in want if x not in seen][:4] or want[:6]),
+                where='unparsers/walker.py:walk._walk')
+    return r
+
+
 def run(report, index, tier):
     M = models(index)
     from .c20 import guard_tokens, guard_transcriptions
     guard_tokens(report, index, M)
     guard_transcriptions(index, M, report, depth=2)
+    from . import c14
+    c14.rules(report, index)
+    sourcepath_rule(report, index, 'R08.5')
     g, A, lm = M.grammar, M.actions, M.lexmodel
     report.explanation = (
         'For every production/definition pair the token map that '
@@ -185,8 +303,8 @@ def run(report, index, tier):
         raise AnalysisError('Node.getpos vanished')
 
     # getpos decision table
-    def run_getpos(tm, s, idx):
-        node = Obj('Node', _token_map=tm)
+    def run_getpos(tm, s, idx, **fields):
+        node = Obj('Node', _token_map=tm, **fields)
         ev = Evaluator(am.module, 'Node', {}, {
             'getattr': lambda o, n, d=None: getattr(o, n) if o.has(n) else d})
         ret, _ = ev.call(getpos, [s, idx], self_obj=node)
@@ -199,6 +317,26 @@ def run(report, index, tier):
                  'Node.getpos(%r, %d) on map %s' % (s, idx, tm),
                  'returns %r, expected %r' % (got, want),
                  where='asttypes.py:Node.getpos')
+
+    # a leaf node asked for a text other than the one it was built from
+    # (a literal rewritten by the printer, a renamed identifier) has no
+    # position for it: the position of the raw value is not where the
+    # printed text is
+    raw = '"a\\\nb"'
+    for label, value, s, want in (
+            ('rewritten literal', raw, '"ab"', (0, 0, 0)),
+            ('raw literal', raw, raw, (7, 3, 2)),
+            ('renamed identifier', 'counter', 'a', (0, 0, 0)),
+            ('identifier', 'counter', 'counter', (7, 3, 2)),
+            ('value not a string', 3, '3', (0, 0, 0))):
+        got = run_getpos({value: [(7, 3, 2)]} if isinstance(value, str)
+                         else {}, s, 0, value=value)
+        r3.check(got == want, 'getpos of a leaf: %s' % label,
+                 'Node.getpos(%r, 0) on a node with value %r and the map '
+                 '{value: [(7, 3, 2)]}' % (s, value),
+                 'returns %r, expected %r: the fragment %r would claim a '
+                 'source position at which the source reads %r' % (
+                     got, want, s, value), where='asttypes.py:Node.getpos')
 
     def frag(*a):
         return ('frag',) + tuple(a)
